@@ -37,8 +37,18 @@ func init() {
 }
 
 type c07In struct {
-	ID  int    `json:"id"`
-	Src string `json:"src"`
+	ID    int    `json:"id"`
+	Src   string `json:"src"`
+	Probe []int  `json:"probe,omitempty"` // c07-trace: the chunk returns a table; read these keys
+}
+
+// c07Dig is what the real run left in the table the chunk returned (plain reads, nothing judged)
+type c07Dig struct {
+	Count  int     `json:"cnt"`    // entries seen by a full next() traversal
+	Border int     `json:"border"` // #t
+	MaxKey int     `json:"maxkey"` // largest integer key seen by the traversal (0: none)
+	Other  int     `json:"other"`  // keys that are not positive integers
+	Probes [][]int `json:"probes"` // [key, value]; value -1: nil, -2: not an integer number
 }
 
 type c07Proto struct {
@@ -63,11 +73,12 @@ type c07Proto struct {
 }
 
 type c07Src struct {
-	T   string `json:"t"`
-	Sid int    `json:"sid"`
-	St  string `json:"st"`
-	Msg string `json:"msg"`
-	Np  int    `json:"np"`
+	T   string  `json:"t"`
+	Sid int     `json:"sid"`
+	St  string  `json:"st"`
+	Msg string  `json:"msg"`
+	Np  int     `json:"np"`
+	Dig *c07Dig `json:"dig,omitempty"`
 }
 
 // c07Enc keeps short identifier-like strings readable and replaces everything
@@ -313,11 +324,43 @@ func c07TraceOne(in c07In) (st c07Src, protos []c07Proto) {
 	L.SetContext(ctx)
 	L.Push(L.NewFunctionFromProto(proto))
 	st.St = "ok"
-	if err := L.PCall(0, lua.MultRet, nil); err != nil {
+	nret := lua.MultRet
+	if len(in.Probe) > 0 {
+		nret = 1
+	}
+	if err := L.PCall(0, nret, nil); err != nil {
 		st.Msg = err.Error() // how the run ended is not judged here, only what was dispatched
 		if len(st.Msg) > 200 {
 			st.Msg = st.Msg[:200]
 		}
+	} else if tb, ok := L.Get(-1).(*lua.LTable); ok && len(in.Probe) > 0 {
+		d := &c07Dig{Border: tb.Len(), Probes: [][]int{}}
+		toInt := func(v lua.LValue) int {
+			if v == lua.LNil {
+				return -1
+			}
+			if n, ok := v.(lua.LNumber); ok && float64(n) == float64(int(n)) {
+				return int(n)
+			}
+			return -2
+		}
+		k, v := tb.Next(lua.LNil)
+		for k != lua.LNil {
+			d.Count++
+			if n := toInt(k); n > 0 {
+				if n > d.MaxKey {
+					d.MaxKey = n
+				}
+			} else {
+				d.Other++
+			}
+			_ = v
+			k, v = tb.Next(k)
+		}
+		for _, key := range in.Probe {
+			d.Probes = append(d.Probes, []int{key, toInt(tb.RawGetInt(key))})
+		}
+		st.Dig = d
 	}
 	c07Walk(in.ID, "0", proto, &protos)
 	var walk func(p *lua.FunctionProto, path string)
